@@ -881,16 +881,32 @@ func findSinkType(params *filterParams, parent ast.Node, kv *ast.KeyValueExpr, e
 		}
 
 	case *ast.CompositeLit:
-		switch typ := params.ctx.Types.TypeOf(parent).Underlying().(type) {
+		// An index key of a slice/array literal and a field name of a struct literal are no values.
+		isKey := kv != nil && astutil.Unparen(kv.Key) == e
+		if kv == nil && !isElement(parent.Elts, e) {
+			break // The literal's type.
+		}
+		typ := params.ctx.Types.TypeOf(parent).Underlying()
+		if ptr, ok := typ.(*types.Pointer); ok && parent.Type == nil {
+			// An element {...} of a []*T literal stands for &T{...}.
+			typ = ptr.Elem().Underlying()
+		}
+		switch typ := typ.(type) {
 		case *types.Slice:
-			return typ.Elem()
+			if !isKey {
+				return typ.Elem()
+			}
 		case *types.Array:
-			return typ.Elem()
+			if !isKey {
+				return typ.Elem()
+			}
 		case *types.Map:
-			if kv != nil && astutil.Unparen(kv.Key) == e {
+			if isKey {
 				return typ.Key()
 			}
-			return typ.Elem()
+			if kv != nil {
+				return typ.Elem()
+			}
 		case *types.Struct:
 			if kv == nil {
 				// A positional struct literal: the i-th element initializes the i-th field.
@@ -902,7 +918,7 @@ func findSinkType(params *filterParams, parent ast.Node, kv *ast.KeyValueExpr, e
 				break
 			}
 			fieldName, ok := kv.Key.(*ast.Ident)
-			if !ok {
+			if !ok || isKey {
 				break
 			}
 			for i := 0; i < typ.NumFields(); i++ {
